@@ -855,13 +855,13 @@ Section RfcOpen.
     cbn [forallb] in Hok. apply andb_prop in Hok. destruct Hok as [Hf Hfs].
     destruct fs as [|x fs].
     - rewrite enc_record_single.
-      destruct (rfc_field_mode d D q f acc [] Hf) as (m & Hm & Hmf & Hrun).
+      destruct (rfc_field_mode d q f acc [] Hf) as (m & Hm & Hmf & Hrun).
       rewrite app_nil_r in Hrun. rewrite Hrun.
       rewrite rfc_eof; [rewrite rev_involutive; reflexivity|].
       destruct Hb as [Hb|Hb]; [auto|]. left. intros ->.
       destruct (Hmf eq_refl) as [-> ->]. discriminate Hb.
     - rewrite enc_record_cons2.
-      destruct (rfc_field_mode d D q f acc (delim d :: enc_record d (x :: fs)) Hf) as (m & Hm & _ & Hrun).
+      destruct (rfc_field_mode d q f acc (delim d :: enc_record d (x :: fs)) Hf) as (m & Hm & _ & Hrun).
       rewrite Hrun. rewrite (rfc_delim d D) by assumption. rewrite rev_involutive.
       rewrite IH; [|discriminate|assumption|left; discriminate].
       cbn [map snd rev]. rewrite <- !app_assoc. reflexivity.
